@@ -4,6 +4,9 @@ use crate::verif_seams::lazy_static;
 #[cfg(not(rfsm_verif))]
 use lazy_static::lazy_static;
 use std::cell::RefCell;
+#[cfg(rfsm_verif)]
+use crate::verif_seams::collections::{HashMap, HashSet};
+#[cfg(not(rfsm_verif))]
 use std::collections::{HashMap, HashSet};
 use std::fmt;
 use std::fmt::{Debug, Display, Formatter};
